@@ -169,6 +169,7 @@ class Exec:
         for idx, line in enumerate(lines):
             last = idx == len(lines) - 1
             self.cur_path = path
+            self.cur_fn = f
             if not last:
                 self.stmt(line, frame, mem)
                 continue
@@ -310,6 +311,18 @@ class Exec:
             return Konst(m.group(1))
         raise Unsupported("operand: " + s)
 
+    def is_signed(self, operand):
+        """signedness of a comparison operand: literal suffix, or the declared type of the local in the current function"""
+        operand = operand.strip()
+        if re.search(r"_(isize|i64|i32|i16|i8)$", operand):
+            return True
+        m = re.fullmatch(r"(?:copy|move) _(\d+)", operand)
+        f = getattr(self, "cur_fn", None)
+        if m and f is not None:
+            d = re.search(r"let (?:mut )?_%s: (\w+);" % m.group(1), f.text)
+            return bool(d and d.group(1) in ("isize", "i64", "i32", "i16", "i8"))
+        return False
+
     def stmt(self, line, frame, mem):
         if line.startswith(("StorageLive", "StorageDead", "nop", "FakeRead", "PlaceMention", "Retag", "AscribeUserType", "Coverage")):
             return
@@ -329,8 +342,12 @@ class Exec:
             return Konst("Ordering::" + m.group(1))
         m = re.fullmatch(r"(Eq|Ne|Lt|Le|Gt|Ge)\((.+)\)", rv)
         if m:
-            a, b = [self.operand(x, frame, mem) for x in split_top(m.group(2), ",")]
+            xs = split_top(m.group(2), ",")
+            a, b = [self.operand(x, frame, mem) for x in xs]
+            signed = any(self.is_signed(x) for x in xs)
             op = {"Eq": "=", "Ne": "distinct", "Lt": "bvult", "Le": "bvule", "Gt": "bvugt", "Ge": "bvuge"}[m.group(1)]
+            if signed:
+                op = op.replace("bvu", "bvs")
             return BoolV(f"({op} {a.t} {b.t})")
         m = re.fullmatch(r"(Add|Sub)(?:WithOverflow|Unchecked)?\((.+)\)", rv)
         if m:
@@ -395,6 +412,26 @@ class Exec:
             b = self.load(self.load_ref(args[1]), mem)
             op = {"gt": "bvugt", "lt": "bvult", "ge": "bvuge", "le": "bvule"}[m.group(1)]
             yield mem, path, BoolV(f"({op} {a.fields[0].t} {b.fields[0].t})")
+            return
+        m = re.fullmatch(r"<ReloadId as PartialEq>::(eq|ne)", c)
+        if m:
+            a = self.load(self.load_ref(args[0]), mem)
+            b = self.load(self.load_ref(args[1]), mem)
+            yield mem, path, BoolV(f"({'=' if m.group(1) == 'eq' else 'distinct'} {a.fields[0].t} {b.fields[0].t})")
+            return
+        m = re.fullmatch(r"<ReloadId as Ord>::(max|min)", c)
+        if m:
+            a, b = args[0], args[1]
+            if not (isinstance(a, Struct) and isinstance(b, Struct)):
+                raise Unsupported("Ord::max on non-ReloadId values")
+            x, y = a.fields[0].t, b.fields[0].t
+            # std: max returns the second argument when equal, min the first (indistinguishable for a usize newtype)
+            t = f"(ite (bvugt {x} {y}) {x} {y})" if m.group(1) == "max" else f"(ite (bvugt {x} {y}) {y} {x})"
+            yield mem, path, Struct({0: BV(t)})
+            return
+        m = re.fullmatch(r"core::num::<impl usize>::wrapping_(add|sub)", c)
+        if m:
+            yield mem, path, BV(f"({'bvadd' if m.group(1) == 'add' else 'bvsub'} {args[0].t} {args[1].t})")
             return
         if re.fullmatch(r"NonNull::<[\w:]+>::as_ref::<'_>|NonNull::<[\w:]+>::as_ref", c):
             nn = self.load(self.load_ref(args[0]), mem)
